@@ -255,12 +255,16 @@ def sink_case(mon: Monitor, rng: random.Random, workdir: str) -> None:
         with open(bystander, "wb") as f:
             f.write(b"DO NOT TOUCH")
         dst = os.path.join(d, "out.bin")
+        existing = rng.choice([None, None, "before-sink", "before-finalise"])  # the same output produced a second time / an earlier run being replaced
+        if existing == "before-sink":
+            with open(dst, "wb") as f:
+                f.write(b"STALE BYTES OF AN EARLIER RUN " * rng.choice([1, 200]))
         m = rng.choice([16, 4096])
         s = MPUFileSink(dst, parts_base=base, min_write_sz=m) if rng.random() < 0.5 else MPUFileSink(dst, parts_base=base)
         n = rng.randint(1, 6)
         ids = rng.sample(range(1, 60), n)
         datas = [os.urandom(rng.choice([0, 1, 10, m - 1, m, 3 * m, 5000])) for _ in ids]
-        cfg = {"parts": list(zip(ids, map(len, datas))), "relocated": relocate}
+        cfg = {"parts": list(zip(ids, map(len, datas))), "relocated": relocate, "existing_destination": existing}
         with FsAudit() as audit:
             parts, e = call(lambda: [s(i, b) for i, b in zip(ids, datas)])
             if e is not None:
@@ -268,6 +272,9 @@ def sink_case(mon: Monitor, rng: random.Random, workdir: str) -> None:
             order = list(range(n))
             if rng.random() < 0.5:
                 rng.shuffle(order)
+            if existing == "before-finalise":
+                with open(dst, "wb") as f:
+                    f.write(b"STALE BYTES OF AN EARLIER RUN " * rng.choice([1, 200]))
             res, e = call(s.finalise, [parts[o] for o in order])
         cfg["order"] = [ids[o] for o in order]
         if e is not None:
@@ -283,7 +290,7 @@ def sink_case(mon: Monitor, rng: random.Random, workdir: str) -> None:
         outside = [ev for ev in audit.events if ev[0] != "open" and not any(str(a).startswith(d) for a in ev[1:])]
         ok = got == want and not os.path.exists(pdir) and not left and by_ok and not touched and not outside and str(res) == dst
         mon.check(ok, "filesink", lambda: {**cfg, "content_equal": got == want, "len": [len(got), len(want)], "parts_dir_left": os.path.exists(pdir), "files_left": left, "bystander_touched": touched, "events_outside": outside[:5]},
-                  key="filesink-contract", cls=("relocated" if relocate else "default") + ("|empty-part" if any(len(x) == 0 for x in datas) else ""), sig=hsig("fs", tuple(cfg["parts"]), tuple(cfg["order"]), relocate),
+                  key="filesink-contract", cls=("relocated" if relocate else "default") + ("|empty-part" if any(len(x) == 0 for x in datas) else "") + ("|existing-destination" if existing else ""), sig=hsig("fs", tuple(cfg["parts"]), tuple(cfg["order"]), relocate),
                   sample=cfg)
     finally:
         shutil.rmtree(d, ignore_errors=True)
@@ -414,7 +421,7 @@ def run(mon: Monitor, tier: str, seed: int, shard: int, nshards: int) -> None:
         real_cluster(mon, rng, 2)
     elif shard == 0:
         real_cluster(mon, rng, 30)
-    floors = [("schedule", 1500 if q else 3000), ("filesink", 200), ("limits", 30), ("filesink|default|empty-part", 5), ("filesink|relocated", 20), ("limits|MPUFileSink", 25)]
+    floors = [("schedule", 1500 if q else 3000), ("filesink", 200), ("limits", 30), ("filesink|default|empty-part", 5), ("filesink|relocated", 20), ("filesink|default|existing-destination", 5), ("limits|MPUFileSink", 25)]
     if q or nshards == 1:
         floors += [("schedule|local|n=2|dfs", 200), ("schedule|cluster-prepared|n=2|dfs", 200), ("schedule|cluster-unprepared|n=2|dfs", 200), ("schedule|local|n=3|dfs", 200), ("schedule|local-cold|n=2|dfs", 200), ("real-cluster", 2)]
     for pt, n in floors:
